@@ -208,7 +208,11 @@ theorem validateRawTxs_spec (c : Ctx) (w : Weighting) (txs valid res : List Tx)
   | cons x rest ih =>
     simp only [validateRawTxs, Option.toList, List.nil_append] at h
     split at h
-    · simp at h
+    · obtain ⟨h1, h2⟩ := ih valid hv h
+      refine ⟨h1, fun t ht => ?_⟩
+      rcases h2 t ht with h | h
+      · exact Or.inl h
+      · right; simp [h]
     · rename_i a ha
       split at h
       · rename_i hva
@@ -224,6 +228,19 @@ theorem validateRawTxs_spec (c : Ctx) (w : Weighting) (txs valid res : List Tx)
         rcases h2 t ht with h | h
         · exact Or.inl h
         · right; simp [h]
+
+/-- `validate_raw_txs` never fails: a candidate that does not aggregate or validate is skipped -/
+theorem validateRawTxs_total (c : Ctx) (w : Weighting) (extra : Option Tx) (txs valid : List Tx) :
+    ∃ res, validateRawTxs c w extra txs valid = .ok res := by
+  induction txs generalizing valid with
+  | nil => exact ⟨valid, rfl⟩
+  | cons x rest ih =>
+    simp only [validateRawTxs]
+    split
+    · exact ih valid
+    · split
+      · exact ih (valid ++ [x])
+      · exact ih valid
 
 theorem aggregateWith_raw {c : Ctx} {w : Weighting} {b nb : Bucket} {t : Tx}
     (h : b.aggregateWith c w t = some nb) : nb.raw = b.raw ++ [t] := by
